@@ -291,7 +291,9 @@ Definition run_strat (x : sx) : sx :=
   | Some (P, rs) =>
       let rk := ranks P in
       L [ebool (stratified P rs);
-         ebool (all_decls P (fun _ _ d => fo P (d_rhs d)) && forallb (fo P) rs)]
+         ebool (all_decls P (fun _ _ d => fo P (d_rhs d)) && forallb (fo P) rs);
+         (* every declaration flagged by the recursion check is one the evaluator memoises (no parameters) *)
+         ebool (all_decls P (fun _ _ d => negb (d_rec d) || match d_params d with [] => true | _ => false end))]
   end.
 
 (** * the document tie: evaluate, build the document (Model/Builder.v), print it as an s-expression *)
